@@ -76,7 +76,7 @@ BinI(tb, k) == HashOf[k] % TLen(tb)
 IsRead(o) == o.op \in {"get", "get_key_value", "contains_key", "iter"}
 L0 == [tb |-> 0, b |-> NULL, p |-> NULL, i |-> 0, bound |-> 0, adv |-> FALSE, fin |-> FALSE,
        xt |-> 0, nt |-> 0, n |-> 0, sc |-> 0, c |-> 0, ret |-> "", lo |-> NULL, hi |-> NULL,
-       r |-> NoRes, hint |-> FALSE, after |-> "",
+       r |-> NoRes, hint |-> FALSE, after |-> "", req |-> 0,
        \* traverser (iter/traverser.rs): stack of <<table, length, index>>, prev node, candidate e
        stk |-> <<>>, prev |-> NULL, e |-> NULL, ix |-> 0, bi |-> 0, bl |-> 0, bs |-> 0]
 EmptyTab(n) == [len |-> n, bins |-> [j \in 0..n-1 |-> NULL], next |-> 0]
@@ -144,7 +144,7 @@ Call(t) ==
 (* ------------------------------------------------------------------------ *)
 (* entry of every per-key operation: self.table.load                        *)
 LoadTable(t) ==
-  /\ pc[t] = "LoadTable" /\ CurOp(t).op \notin {"iter", "clear"}
+  /\ pc[t] = "LoadTable" /\ CurOp(t).op \notin {"iter", "clear", "reserve"}
   /\ IF table = 0
      THEN IF CurOp(t).op \in {"insert", "try_insert", "compute"}
           THEN Goto(t, "InitLoadTable") /\ UNCHANGED loc /\ UNCHANGED <<res, doneOps, idx>>   \* init_table
@@ -555,6 +555,69 @@ XStoreSc(t) ==    \* size_ctl.store(1.5 n)
 
 
 
+(* ---- reserve(additional) = try_presize(len() + additional) ----------------------------- *)
+(* (o.pl = additional).  try_presize loops: give up while a resize / initialisation is running   *)
+(* (size_ctl < 0); allocate the table if there is none; stop when the threshold already covers   *)
+(* the request; otherwise start a resize of the current table and look again.                    *)
+RECURSIVE Pow2AtLeast(_, _)
+Pow2AtLeast(x, p) == IF p >= x THEN p ELSE Pow2AtLeast(x, 2 * p)
+ReqCap(size) == Pow2AtLeast(size + (size \div 2) + 1, 1)
+RsLoadCnt(t) ==   \* len(): count.load (negative transient counts read as 0)
+  /\ pc[t] = "LoadTable" /\ CurOp(t).op = "reserve"
+  /\ SetLoc(t, [loc[t] EXCEPT !.req = ReqCap((IF count > 0 THEN count ELSE 0) + CurOp(t).pl)]) /\ Goto(t, "PsLoadSc")
+  /\ UnchHeap /\ UnchTab /\ UnchCtl /\ UnchHist
+PsLoadSc(t) ==
+  /\ pc[t] = "PsLoadSc"
+  /\ IF sizeCtl < 0 THEN Finish(t, NoRes)
+     ELSE SetLoc(t, [loc[t] EXCEPT !.sc = sizeCtl]) /\ Goto(t, "PsLoadTable") /\ UNCHANGED <<res, doneOps, idx>>
+  /\ UnchHeap /\ UnchTab /\ UnchCtl /\ UNCHANGED before /\ UnchRz
+PsLoadTable(t) ==
+  /\ pc[t] = "PsLoadTable"
+  /\ LET l == loc[t] IN
+     IF table = 0
+     THEN SetLoc(t, [l EXCEPT !.xt = 0]) /\ Goto(t, "PsCasInit") /\ UNCHANGED <<res, doneOps, idx>>
+     ELSE IF l.req <= l.sc \/ ntabs >= MaxTabs
+          THEN Finish(t, NoRes)
+          ELSE SetLoc(t, [l EXCEPT !.xt = table, !.n = TLen(table)]) /\ Goto(t, "PsRecheck") /\ UNCHANGED <<res, doneOps, idx>>
+  /\ UnchHeap /\ UnchTab /\ UnchCtl /\ UNCHANGED before /\ UnchRz
+PsCasInit(t) ==   \* size_ctl.compare_exchange(sc, -1)
+  /\ pc[t] = "PsCasInit"
+  /\ IF sizeCtl = loc[t].sc THEN sizeCtl' = -1 /\ Goto(t, "PsInitRecheck")
+                           ELSE UNCHANGED sizeCtl /\ Goto(t, "PsLoadSc")
+  /\ UNCHANGED <<transferIndex, count, loc>> /\ UnchHeap /\ UnchTab /\ UnchHist
+PsInitRecheck(t) ==   \* self.table.load() != table ?
+  /\ pc[t] = "PsInitRecheck"
+  /\ Goto(t, IF table # 0 THEN "PsInitRestore" ELSE "PsInitSwap") /\ UNCHANGED loc
+  /\ UnchHeap /\ UnchTab /\ UnchCtl /\ UnchHist
+PsInitRestore(t) ==   \* somebody else allocated: size_ctl.store(sc), look again
+  /\ pc[t] = "PsInitRestore"
+  /\ sizeCtl' = loc[t].sc /\ Goto(t, "PsLoadSc") /\ UNCHANGED loc
+  /\ UNCHANGED <<transferIndex, count>> /\ UnchHeap /\ UnchTab /\ UnchHist
+PsInitSwap(t) ==      \* self.table.swap(new table of max(requested, initial) bins)
+  /\ pc[t] = "PsInitSwap" /\ ntabs < MaxTabs
+  /\ LET n == IF loc[t].req > loc[t].sc THEN loc[t].req ELSE loc[t].sc IN
+     /\ tabs' = [tabs EXCEPT ![ntabs + 1] = EmptyTab(n)]
+     /\ ntabs' = ntabs + 1 /\ table' = ntabs + 1
+     /\ SetLoc(t, [loc[t] EXCEPT !.n = n])
+  /\ Goto(t, "PsInitStoreSc")
+  /\ UNCHANGED nextTable /\ UnchHeap /\ UnchCtl /\ UnchHist
+PsInitStoreSc(t) ==
+  /\ pc[t] = "PsInitStoreSc"
+  /\ sizeCtl' = LF(loc[t].n) /\ Goto(t, "PsLoadSc") /\ UNCHANGED loc
+  /\ UNCHANGED <<transferIndex, count>> /\ UnchHeap /\ UnchTab /\ UnchHist
+PsRecheck(t) ==       \* table == self.table.load() ?
+  /\ pc[t] = "PsRecheck"
+  /\ Goto(t, IF table = loc[t].xt THEN "PsCasStart" ELSE "PsLoadSc") /\ UNCHANGED loc
+  /\ UnchHeap /\ UnchTab /\ UnchCtl /\ UnchHist
+PsCasStart(t) ==      \* size_ctl.compare_exchange(sc, rs + 2); transfer(table, null); look again
+  /\ pc[t] = "PsCasStart"
+  /\ IF sizeCtl = loc[t].sc
+     THEN /\ sizeCtl' = RS(loc[t].n) + 2
+          /\ SetLoc(t, [loc[t] EXCEPT !.ret = "PsLoadSc", !.nt = 0, !.i = 0, !.bound = 0, !.adv = TRUE, !.fin = FALSE])
+          /\ Goto(t, "XSwapNext")
+     ELSE /\ UNCHANGED <<sizeCtl, loc>> /\ Goto(t, "PsLoadSc")
+  /\ UNCHANGED <<transferIndex, count>> /\ UnchHeap /\ UnchTab /\ UnchHist
+
 (* ---- clear(): bin by bin; the null store is the commit point of every entry of the bin - *)
 RECURSIVE GhostAll(_, _, _)
 GhostAll(ks, am, it) ==     \* remove every key of ks from the ghost contents
@@ -662,6 +725,8 @@ Step(t) ==
    \/ XSwapNext(t) \/ XStoreTi(t) \/ XLoadNt(t) \/ XClaim(t) \/ XCasTi(t) \/ XCheck(t) \/ XLoadScLeave(t) \/ XCasLeave(t)
    \/ XLoadBin(t) \/ XAdv(t) \/ XCasFwd(t) \/ XLock(t) \/ XReval(t) \/ XStoreLo(t) \/ XStoreHi(t) \/ XStoreFwd(t)
    \/ XClearNext(t) \/ XSwapTable(t) \/ XStoreSc(t)
+   \/ RsLoadCnt(t) \/ PsLoadSc(t) \/ PsLoadTable(t) \/ PsCasInit(t) \/ PsInitRecheck(t) \/ PsInitRestore(t)
+   \/ PsInitSwap(t) \/ PsInitStoreSc(t) \/ PsRecheck(t) \/ PsCasStart(t)
 Next == \E t \in Threads : Step(t)
 Spec == Init /\ [][Next]_vars
 \* C11: weak fairness of every thread (a spinning loser is fair only together with the winner)
